@@ -13,7 +13,7 @@ from __future__ import annotations
 from ..facts import AnalysisError
 from ..terms import const, contains, show, strip_sites
 from ..util import NoInline, P, calls_to, engine, loc, param_at
-from .ordering import (PROTO, TS, Ctx, atomic_notifications, expiry_once, reboot_before_entries)
+from .ordering import (PROTO, TS, Ctx, atomic_notifications, expiry_once, reboot_before_entries, reject_before_record)
 
 DISC = "sd.ServiceDiscover"
 OFFERED = "sd.ClientServiceListener.service_offered"
@@ -36,6 +36,7 @@ def check(run, prog, tier):
     cx = Ctx(run, prog)
     atomic_notifications(cx, "A1", "stopped")
     expiry_once(cx, "A1")
+    reject_before_record(cx, "A1")  # a new entry is announced exactly once, a refresh is silent
 
     # ------------------------------------------------------------------ A2 who may notify
     n_off = cx.m(DISC, "_notify_service_offered")
